@@ -62,6 +62,43 @@ func vh_C03_recv_dispatch() {
 	vAssert(w.closed, "recv closes the writer on exit")
 }
 
+// a caller that gives up (context cancelled while its request is in flight)
+// does not disturb anybody else: the server still answers that request, and
+// the late reply must not end the receive loop - the other caller gets the
+// reply to its own request (added after seeded change C03-d)
+func vh_C03_cancelled_caller() {
+	w := &vBuf{}
+	c := &clientConn{inflight: make(map[uint32]chan<- result), closed: make(chan struct{})}
+	c.conn = conn{Reader: &vReader{}, WriteCloser: w}
+	idA, idB := vNondetU32(), vNondetU32()
+	vAssume(idA != idB)
+	chB := make(chan result, 1)
+	c.inflight[idB] = chB
+	ctx, cancel := context.WithCancel(context.Background())
+	cancel()
+	_, _, err := c.sendPacket(ctx, nil, &sshFxpReaddirPacket{ID: idA, Handle: "h"})
+	if err == nil {
+		return // (the select may as well have taken a reply, had there been one)
+	}
+	vAssert(err == ctx.Err(), "the cancelled caller gets the context's error")
+	// the replies arrive: first the one nobody waits for any more, then B's
+	replyA := refFrame(sshFxpStatus, append(refU32(nil, idA), 0, 0, 0, 1, 0, 0, 0, 0, 0, 0, 0, 0))
+	bodyB := append(refU32(nil, idB), 0, 0, 0, 0, 0, 0, 0, 0, 0, 0, 0, 0)
+	order := vNondetBool()
+	if order {
+		c.conn.Reader = &vReader{data: append(replyA, refFrame(sshFxpStatus, bodyB)...)}
+	} else {
+		c.conn.Reader = &vReader{data: append(refFrame(sshFxpStatus, bodyB), replyA...)}
+	}
+	rerr := c.recv()
+	vAssert(rerr == io.EOF, "the late reply to a cancelled request does not end the receive loop")
+	vAssert(len(chB) == 1, "the other caller still gets the reply to its own request")
+	if len(chB) == 1 {
+		r := <-chB
+		vAssert(r.err == nil && r.typ == sshFxpStatus && vBytesEq(r.data, bodyB), "type and data as received")
+	}
+}
+
 func vh_C03_ids_distinct() {
 	c := &Client{}
 	c.nextid = vNondetU32()
